@@ -42,6 +42,8 @@ class Controller:
         self.used_choices = []
         self.k = 0
         self.gate_timeouts = 0
+        self.notified = 0            # completions that reached the event loop (call_soon_threadsafe calls)
+        self.wait_notify = scn['threads'] > 1
 
     # called from worker threads (or the main thread when threads == 1)
     def enter(self, x):
@@ -96,6 +98,11 @@ class Controller:
                     ev = self.parked.pop(e)
                     self.released.append(e)
                     ev.set()
+                    if self.wait_notify:
+                        # the next release waits until this completion has been handed to the event loop: completion
+                        # order as seen by parallel_map == release order, not thread timing
+                        target = len(self.released)
+                        self.cv.wait_for(lambda: self.notified >= target or self.done, timeout=STALL_TIMEOUT)
                 if e in chunk and e not in completed:
                     completed.append(e)
         # drain anything unexpected (e.g. elements called twice)
@@ -178,6 +185,11 @@ class PmapEngine(Engine):
     def size(self, scn):
         return scn['n']
 
+    def canon_obs(self, scn, obs):
+        # the order in which simultaneously started worker calls reach their gates is real thread timing and irrelevant:
+        # the controller acts only once the documented in-flight set is complete
+        return {k: v for k, v in obs.items() if k != 'arrivals'}
+
     def sample(self, scn, obs):
         return {'scenario': scn, 'released': obs.get('released'), 'result': obs.get('result')}
 
@@ -209,6 +221,14 @@ class PmapEngine(Engine):
         inp = make_input(scn['input'], xs)
         loop = asyncio.new_event_loop()
         asyncio.set_event_loop(loop)
+        orig_csts = loop.call_soon_threadsafe
+
+        def counting_csts(cb, *args, **kw):
+            with ctl.cv:
+                ctl.notified += 1
+                ctl.cv.notify_all()
+            return orig_csts(cb, *args, **kw)
+        loop.call_soon_threadsafe = counting_csts
         th = threading.Thread(target=ctl.run, daemon=True)
         th.start()
         res = {'result': None, 'error': None}
